@@ -52,14 +52,16 @@ type Exec struct {
 	env *world.Env
 	p   *world.Plan
 	// Foreign returns regions owned by other tasks (conc world); nil in sequential worlds.
-	Foreign  func() []simenv.Region
-	Ops      []world.Op
-	Label    string
-	builders []*mocker.Builder
-	st       map[int]*tstate
-	phUsed   map[int]bool
-	keep     []interface{} // callbacks kept alive by the harness (dropped by dropref)
-	opi      int
+	Foreign func() []simenv.Region
+	Ops     []world.Op
+	Label   string
+	// Deep > 0: calls are issued on a fresh goroutine below Deep filler frames (+ Fine*16 bytes)
+	Deep, Fine int
+	builders   []*mocker.Builder
+	st         map[int]*tstate
+	phUsed     map[int]bool
+	keep       []interface{} // callbacks kept alive by the harness (dropped by dropref)
+	opi        int
 }
 
 func (x *Exec) state(t int) *tstate {
@@ -198,11 +200,19 @@ func (x *Exec) callTarget(ti, form int, argSeed uint64, hit bool) {
 		s.rec.Snapshot()
 		s.rec.ResetDepth()
 	}
-	if s.kind == kCbOrigin {
-		reserveStack()
-	}
 	var got []interface{}
-	pv := catchCall(func() { got = t.Call(form, args) })
+	var pv interface{}
+	if x.Deep > 0 {
+		// world "origin": call on a fresh goroutine below a filler recursion of seeded depth, so that
+		// the stack check relocated into the trampoline runs with every possible headroom
+		form = thunk.FormDirect
+		pv = catchCall(func() { runDeep(x.Deep, x.Fine, func() { got = t.Call(thunk.FormDirect, args) }) })
+	} else {
+		if s.kind == kCbOrigin {
+			reserveStack()
+		}
+		pv = catchCall(func() { got = t.Call(form, args) })
+	}
 	ran := t.RanCount() - before
 	x.env.Check()
 	x.env.T("call %s form=%d args=%s -> %s panic=%v", shortName(t.Name), form, val.ShowList(args), val.ShowList(got), pv != nil)
@@ -321,6 +331,69 @@ func stubResultsSame(ft reflect.Type, got, want []interface{}) bool {
 		}
 	}
 	return true
+}
+
+// runDeep runs f on a fresh goroutine below depth filler frames; panics are forwarded.
+func runDeep(depth, fine int, f func()) {
+	done := make(chan struct{})
+	var pv interface{}
+	go func() {
+		defer func() {
+			pv = recover()
+			close(done)
+		}()
+		filler(depth, fine, f)
+	}()
+	<-done
+	if pv != nil {
+		panic(pv)
+	}
+}
+
+//go:noinline
+func filler(d, fine int, f func()) int {
+	var pad [24]byte
+	pad[d%24] = 1
+	if d <= 0 {
+		switch fine & 3 {
+		case 0:
+			return last0(f)
+		case 1:
+			return last1(f)
+		case 2:
+			return last2(f)
+		default:
+			return last3(f)
+		}
+	}
+	return filler(d-1, fine, f) + int(pad[d%24])
+}
+
+//go:noinline
+func last0(f func()) int { f(); return 0 }
+
+//go:noinline
+func last1(f func()) int {
+	var pad [16]byte
+	pad[3] = 1
+	f()
+	return int(pad[3])
+}
+
+//go:noinline
+func last2(f func()) int {
+	var pad [32]byte
+	pad[5] = 1
+	f()
+	return int(pad[5])
+}
+
+//go:noinline
+func last3(f func()) int {
+	var pad [48]byte
+	pad[7] = 1
+	f()
+	return int(pad[7])
 }
 
 //go:noinline
